@@ -3,6 +3,7 @@
 
 class World:
     ID = "C00"
+    TIER = "quick"  # set by the runner / cli: worlds may widen their swarm in the thorough tier
     LEVEL = "exploration"
     RUNS = {"quick": 1000, "thorough": 100000}
     WALL = {"quick": 90.0, "thorough": 1500.0}
